@@ -22,6 +22,8 @@ illegalCharacters += [chr(i) for i in range(1, 32)]
 illegalCharacters += [chr(0x7F)]
 reservedFileNames = "CON PRN AUX CLOCK$ NUL A:-Z: COM1".lower().split(" ")
 reservedFileNames += "LPT1 LPT2 LPT3 COM2 COM3 COM4".lower().split(" ")
+reservedFileNames += "COM5 COM6 COM7 COM8 COM9".lower().split(" ")
+reservedFileNames += "LPT4 LPT5 LPT6 LPT7 LPT8 LPT9".lower().split(" ")
 maxFileNameLength = 255
 
 
